@@ -2,6 +2,7 @@ package rcall
 
 import (
 	"github.com/modernizing/coca/pkg/domain/core_domain"
+	"sort"
 	"strings"
 )
 
@@ -58,6 +59,13 @@ func BuildMethodCallMap(dataStructs []core_domain.CodeDataStruct, projectMaps ma
 				}
 			}
 		}
+	}
+
+	// the order of the functions inside a type differs from run to run (it comes from a map); the callers of a
+	// method are therefore listed in sorted order, so that the map and the budget-limited graph built from it
+	// are the same on every run
+	for callee := range methodCallMap {
+		sort.Strings(methodCallMap[callee])
 	}
 
 	return methodCallMap
